@@ -76,6 +76,7 @@ func All() []Scenario {
 		{Name: "two-clients-same-key", Height: 1, Clients: 2, Threads: [][]Lookup{{L(0, 0, false)}, {L(1, 0, false)}}},
 		{Name: "nosumdb-next-to-normal", Height: 2, Clients: 1, GONOSUMDB: "m7.example,*.corp", Threads: [][]Lookup{{L(0, 7, false)}, {L(0, 0, false)}}},
 		{Name: "nosumdb-only-client", Height: 2, Clients: 2, GONOSUMDB: "m7.example,*.corp", Threads: [][]Lookup{{L(1, 7, false), L(1, 7, true)}, {L(0, 0, false)}}},
+		{Name: "three-heads-one-client-h8", Height: 8, Preload: pre(10, 11, 12), Stored: true, Clients: 1, Threads: [][]Lookup{{L(0, 0, false)}, {L(0, 1, false)}, {L(0, 3, false)}}},
 		{Name: "height-8-single-tile", Height: 8, Preload: pre(10, 11, 12, 13, 14), Stored: true, Clients: 1, Threads: [][]Lookup{{L(0, 0, false)}, {L(0, 1, true)}}},
 		{Name: "one-thread-two-lookups-vs-one", Height: 2, Preload: pre(10), Clients: 1, Threads: [][]Lookup{{L(0, 0, false), L(0, 1, false)}, {L(0, 1, true)}}},
 	}
